@@ -55,3 +55,24 @@ Theorem C14_reader_delivers_declarations :
       flat_obs (decode_frames Generic ak po fs st0) = (evs, None).
 Proof. exact decoder_sound_frames. Qed.
 Print Assumptions C14_reader_delivers_declarations.
+
+(* the same for QuadStream and GraphStream: declarations first, in order, then exactly the statements
+   -- with declarations off [ns_events] is empty, so switching them on or off never changes the
+   statements delivered *)
+From PJ.Proofs Require Import EncGraphs EncNamespace2.
+Theorem C14_declarations_and_statements_quads :
+  forall (o : soptions) (s s' : stream) (d : sdata) (evs : list tev),
+    stream_new QuadStream Generic o = Ok s -> cfg_ok o (st_logical s) -> fl_rows (st_flow s) = [] ->
+    quads_stream_frames d s = (s', evs) -> raised evs = None ->
+    run (flat_map f_rows (emitted evs)) = Valid (ns_events o d ++ flat_map event_of_quad (d_stmts d)).
+Proof. exact quads_stream_valid_ns. Qed.
+Print Assumptions C14_declarations_and_statements_quads.
+
+Theorem C14_declarations_and_statements_graphs :
+  forall (o : soptions) (s s' : stream) (d : sdata) (evs : list tev),
+    stream_new GraphStream Generic o = Ok s -> cfg_ok o (st_logical s) -> fl_rows (st_flow s) = [] ->
+    forallb wf_quad (d_stmts d) = true ->
+    graphs_stream_frames_generic d s = (s', evs) -> raised evs = None ->
+    run (flat_map f_rows (emitted evs)) = Valid (ns_events o d ++ flat_map event_of_quad (d_stmts d)).
+Proof. exact graphs_stream_valid_ns. Qed.
+Print Assumptions C14_declarations_and_statements_graphs.
